@@ -45,4 +45,6 @@ theorem getItem_nat (l : List α) (i : Nat) : Py.getItem l (i : Int) = match l[i
 theorem range_zero_nat (n : Nat) : Py.range 0 (n : Int) = (List.range n).map (fun (k : Nat) => (k : Int)) := by
   simp [Py.range]
 
+theorem except_ok_bind {α β : Type} (v : α) (f : α → Except Err β) : ((Except.ok v : Except Err α) >>= f) = f v := rfl
+
 end Py
